@@ -30,6 +30,11 @@ fn main() {
             "c04" => c04::run(&toks[1..]),
             "c06" => c06::run(&toks[1..]),
             "c09" => shard::run_c09(&toks[1..]),
+            "c05" => shard::run_c05(&toks[1..]),
+            "c05m" => shard::run_c05m(&toks[1..]),
+            "c10" => shard::run_c10(&toks[1..]),
+            "c10c" => shard::run_c10c(&toks[1..]),
+            "c18" => shard::run_c18(&toks[1..]),
             _ => panic!("unknown stream"),
         });
         match res {
